@@ -10,6 +10,7 @@ import TantivyModel.Model.Recorder
 import TantivyModel.Model.JsonPositions
 import TantivyModel.Model.PositionReader
 import TantivyModel.Model.FieldSerializer
+import TantivyModel.Model.Expull
 import TantivyModel.Proofs.VInt32Source
 /-!
 Line protocol of the C07 model (see harness/src/props/c07.rs):
@@ -30,6 +31,7 @@ Line protocol of the C07 model (see harness/src/props/c07.rs):
 * `blocksearch <values> <target>` → index
 * `invert_json <opt> <docs separated by ; and events by slash: <pathhex>~T~<tokens> | <pathhex>~N~<termhex>>` → `<terms>|<total_num_tokens>`
 * `pipeline_remap <opt> <new ids, comma separated, indexed by old id> <corpus>` → `<terms>|<total>` through the doc_id_map branch of Recorder::serialize
+* `expull <n> <i:hex;i:hex;…>` → `hex|…|hex|<arena len>`: read_to_end of each of the n ExpUnrolledLinkedLists after the writes, and the arena's allocated length
 * `segment <opt> <corpus>` → `df:ps:pe:qs:qe;…`, the TermInfos of the terms in byte order (recorders → FieldSerializer)
 * `pipeline <opt> <corpus>` → same format as `invert`, computed through recorders → serializer → decoder
 * `invert <opt> <corpus>` → `<terms>|<total_num_tokens>|<fieldnorm ids>`
@@ -139,6 +141,27 @@ def handlePipeline (o : String) (corpus : String) : String :=
     (if entries.isEmpty then "-" else ";".intercalate entries)
     ++ "|" ++ toString ix.totalNumTokens ++ "|" ++
     showNatList (c.map (fun d => FieldNorm.fieldnormId (Recorder.docTokenCount o d)))
+  | _, _ => "bad-op"
+
+def parseWrite (s : String) : Option (Nat × List Nat) :=
+  match s.splitOn ":" with
+  | [i, h] =>
+    match i.toNat?, (if h == "-" then some [] else natsOfHex h) with
+    | some i, some b => some (i, b)
+    | _, _ => none
+  | _ => none
+
+/-- several `ExpUnrolledLinkedList`s in one arena -/
+def handleExpull (n : String) (ws : String) : String :=
+  match n.toNat?, (if ws == "-" then some [] else (ws.splitOn ";").mapM parseWrite) with
+  | some n, some ws =>
+    if ws.all (fun w => w.1 < n) then
+      let r := Expull.runWrites (List.replicate n Expull.Eull.default) Expull.Arena.empty ws
+      let outs := r.1.map (fun e =>
+        let bs := Expull.readToEnd e r.2
+        if bs.isEmpty then "-" else (hexOfNats bs).getD "bad")
+      "|".intercalate (outs ++ [toString r.2.len])
+    else "bad-op"
   | _, _ => "bad-op"
 
 /-- the TermInfos of the field's terms as `serialize_postings` lays them out -/
@@ -315,6 +338,7 @@ def handle : List String → String
   | ["invert_json", o, corpus] => handleInvertJson o corpus
   | ["invert_json", o] => handleInvertJson o ""
   | ["pipeline_remap", o, ids, corpus] => handlePipelineRemap o ids corpus
+  | ["expull", n, ws] => handleExpull n ws
   | ["segment", o, corpus] => handleSegment o corpus
   | ["segment", o] => handleSegment o ""
   | ["pipeline", o, corpus] => handlePipeline o corpus
